@@ -57,4 +57,68 @@ PROPS = {
   "explanation": "theorems: allocation sums to the minted amount with truncated proportions and an empty mint account, reported-supply delta formula, "
                  "reduction exactly once per period over any number of consecutive epochs (induction), no mint before start; tied by differential run through the real keepers",
  },
+ "C16": {
+  "modules": ["OsmoVerif.Props.C16"],
+  "min_theorems": 18,
+  "fingerprints": [],
+  "engines": [{"name": "sumtree", "kind": "pure", "n": {"quick": 25000, "thorough": 400000}, "shards": {"quick": 4, "thorough": 16}}],
+  "rule": "independent histories (reset m, m in 2..10,16,255) over keys of length 0..3 on a 3-4 letter alphabet (shared prefixes, "
+          "empty key as nil and as empty slice); after every mutating op: raw-store dump of every internal node + 3 random queries "
+          "replayed by the model; the oracle compares get/split/prefix for every key of the closure, ~30 subset pairs, total, iteration "
+          "and store well-formedness with a plain Go map+sort reference; non-trivial = mutating op lines; distinct = distinct op lines",
+  "trusted_base": ["cosmossdk.io/store dbadapter over cosmos-db MemDB (modelled as one sorted association list per level)",
+                   "gogoproto (un)marshalling of Node/Leaf (empty Index decodes to nil; modelled by Ptr.isNil)",
+                   "sdk Int overflow at 2^256 is not modelled (engine values stay below 2^80)"],
+  "assumptions": ["theorems about Set/Increase/Decrease histories assume fan-out m >= 2 (NewTree accepts any uint8; production uses 10)",
+                  "Remove is outside the proved fragment: statement + witnesses only (known findings F4/F5/F9); production (x/lockup) never calls Remove",
+                  "T1 tie of the lockup fan-out constant and body fingerprints of tree.go/node.go are not yet in tools/extract"],
+  "explanation": "WF invariant (levels concatenate to the level below including accumulations, node key = first child key, size <= m, "
+                 "single root); accumulationSplit/get/subset/prefix/iterate equal the sorted-map answers on every WF store (induction over "
+                 "levels); Set/Increase/Decrease preserve WF and are insert on the abstraction for every m >= 2 and every history "
+                 "(induction over levels and over the history); TotalAccumulatedValue returns the value at the empty key (F3); removal: "
+                 "leaf level proved right, internal levels refuted by witnesses.",
+ },
+ "C17": {
+  "modules": ["OsmoVerif.Props.C17"],
+  "min_theorems": 30,
+  "fingerprints": ["Epochs.*"],
+  "engines": [{"name": "epochs", "kind": "pure", "n": {"quick": 24000, "thorough": 250000}, "shards": {"quick": 4, "thorough": 16}}],
+  "rule": "histories of reset k (0-4 scripted subscribers) + 1-4 timers (durations 1ns..1 week, negative durations, zero start time, "
+          "imported running timers, identifiers whose byte order differs from insertion order, malformed AddEpochInfo) + 200-260 blocks with "
+          "non-decreasing times (regular, jitter, equal, exactly at / 1ns around the epoch end, around the start time, multi-epoch gaps) and a "
+          "random script of ok/err/panic(4 kinds)/out-of-gas(3 kinds) outcomes with 0-3 partial writes per hook invocation; a block is "
+          "non-trivial when at least one timer ticks; distinct = distinct op lines",
+  "trusted_base": ["Go time.Time / time.Duration arithmetic is exact integer nanosecond arithmetic inside years 1..9999 (model: Int ns since time.Time{})",
+                   "cosmos-sdk CacheContext/cachekv write-back and IAVL prefix iteration order (exercised in-process by the engine, not modelled below the "
+                   "association-list level)",
+                   "a panicking BeginBlocker fails the block and nothing of it is committed (the engine realises this with a cache context that is written "
+                   "back iff BeginBlocker returned; the model's stepBlock rolls back)"],
+  "assumptions": ["int64 wrap of CurrentEpoch / block height (2^63 ticks) and time.Time overflow are not modelled",
+                  "subscribers touch only their own store (they do not call AddEpochInfo/DeleteEpochInfo or write the epochs store from inside a hook)",
+                  "timers are never deleted (DeleteEpochInfo is not part of the modelled histories); signal_order is stated for timers added un-started, "
+                  "grid additionally for any on-grid imported timer (grid_preserved)"],
+  "explanation": "per-timer theorems (no tick before start, first tick sets start, <=1 epoch per block, tick iff strictly after the epoch end, grid "
+                 "start+(n-1)*dur, signal history = prefix of start1,end1,start2,...) by induction over arbitrary histories (Reach); block-level theorems "
+                 "(every subscriber once per signal in registration order, stores = fold of ok writes only, epoch state independent of hook outcomes, "
+                 "out-of-gas propagates and cuts the invocation list) for arbitrary scripts; model tied to the real keeper + MultiEpochHooks + "
+                 "ApplyFuncIfNoError by differential run incl. the partial state of panicking blocks.",
+ },
+ "C15": {
+  "modules": ["OsmoVerif.Props.C15"],
+  "min_theorems": 12,
+  "fingerprints": ["Accum.*"],
+  "engines": [{"name": "accum", "kind": "pure", "n": {"quick": 200000, "thorough": 1500000}, "shards": {"quick": 4, "thorough": 16}}],
+  "rule": "independent histories (reset) of 20-250 API calls on the real accum package over a MemDB store: <=3 accumulators, <=6 position names, "
+          "<=3 denoms, amounts with 0-18 decimals incl. tiny/huge/half-even ties/overflow; modes fresh-handle, one-handle (judged by the ledger oracle), "
+          "stale-handles and discipline-breaking (correspondence only); every op line + full decoded store dumps are replayed by the Lean model; "
+          "a case is non-trivial when it is not a getter/dump/reset; distinct = distinct op lines",
+  "trusted_base": ["Go math/big (modelled by Int.tdiv/tmod)", "gogoproto (un)marshalling of AccumulatorContent/Record is the identity on in-range values (decoded store compared in every dump)",
+                   "a panicking call is reverted by the caller's cache-wrapped store (stepTx); the engine flags and stops judging histories where a panic left an effect in the raw store"],
+  "assumptions": ["theorems quantify over calls through a freshly fetched handle; a single long-lived handle per accumulator is covered by the engine's `one` mode (handle fields compared with the store in every dump), not by a theorem",
+                  "interval (re-snapshot) ops are credited in the ledger as explicit shifts (V - iv) x shares; without interval ops the ledger is literally sum of growth x sharesThen",
+                  "18-decimal half-even rounding of each settlement (MulDec) is part of the statement: |claimable - ledger| <= inexact * 0.5e-18 per denom, exact when no settlement rounded"],
+  "explanation": "theorems over all finite op sequences (induction over the op list): total shares = sum of position shares; claim returns the truncated GetTotalRewards and resets "
+                 "only the claimer; claimable refines the ghost ledger (sum of growth x sharesThen) within the counted half-unit roundings and exactly when representable; deleted / "
+                 "empty-claimed positions disappear; unknown-position / non-positive-change calls and every error are no-ops. Model tied to the Go code by byte-exact differential run.",
+ },
 }
